@@ -289,7 +289,7 @@ def make_cases(rng, n_schemas: int, per_schema: int, depth: int = 3, foreign: in
     """yields python-side cases: dict(fam, t, ns, kind, value/input, outcome)"""
     from mashumaro.codecs.basic import BasicDecoder, BasicEncoder
     cases = []
-    n_indexed = max(4, n_schemas // 4)
+    n_indexed = max(5, n_schemas // 3)
     for si in range(n_schemas + n_indexed):
         indexed = si >= n_schemas
         sg = gen.SchemaGen(rng, gen.GenOpts(depth=depth, coq_only=True, named=True, mixin=rng.random() < 0.4))
